@@ -388,6 +388,8 @@ impl ChunkFooter {
     fn set_ptr(&self, ptr: NonNull<u8>) {
         if !self.is_empty() {
             self.ptr.set(ptr);
+            #[cfg(bumpalo_verif)]
+            verif_hooks::on_store(self as *const ChunkFooter as usize);
         }
     }
 }
@@ -1242,8 +1244,6 @@ impl<const MIN_ALIGN: usize> Bump<MIN_ALIGN> {
                         // (reclaiming any alignment padding we may have
                         // added).
                         current_footer_p.as_ref().set_ptr(rewind_ptr);
-                        #[cfg(bumpalo_verif)]
-                        verif_hooks::on_store(current_footer_p.as_ptr() as usize);
                     } else {
                         // We allocated a new chunk for this result.
                         //
@@ -1358,8 +1358,6 @@ impl<const MIN_ALIGN: usize> Bump<MIN_ALIGN> {
                         // (reclaiming any alignment padding we may have
                         // added).
                         current_footer_p.as_ref().set_ptr(rewind_ptr);
-                        #[cfg(bumpalo_verif)]
-                        verif_hooks::on_store(current_footer_p.as_ptr() as usize);
                     } else {
                         // We allocated a new chunk for this result.
                         //
@@ -2006,8 +2004,6 @@ impl<const MIN_ALIGN: usize> Bump<MIN_ALIGN> {
             let aligned_ptr = NonNull::new_unchecked(aligned_ptr);
 
             footer.set_ptr(aligned_ptr);
-            #[cfg(bumpalo_verif)]
-            verif_hooks::on_store(footer_ptr.as_ptr() as usize);
             Some(aligned_ptr)
         }
     }
@@ -2276,8 +2272,6 @@ impl<const MIN_ALIGN: usize> Bump<MIN_ALIGN> {
             );
             let ptr = NonNull::new_unchecked(ptr);
             self.current_chunk_footer.get().as_ref().set_ptr(ptr);
-            #[cfg(bumpalo_verif)]
-            verif_hooks::on_store(self.current_chunk_footer.get().as_ptr() as usize);
         }
     }
 
@@ -2364,8 +2358,6 @@ impl<const MIN_ALIGN: usize> Bump<MIN_ALIGN> {
                 "bump pointer {new_ptr:#p} should be aligned to the minimum alignment of {MIN_ALIGN:#x}"
             );
             footer.set_ptr(new_ptr);
-            #[cfg(bumpalo_verif)]
-            verif_hooks::on_store(footer as *const ChunkFooter as usize);
 
             // NB: we know it is non-overlapping because of the size check
             // in the `if` condition.
